@@ -18,6 +18,7 @@ import (
 
 func main() {
 	flag.Parse()
+	run.FixedClock = true
 	wrk.StartWatchdog(20 * time.Second)
 	rl := wrk.OpenRaceLog()
 	os.Exit(wrk.Loop("A", func(spec *run.Spec) *run.Result {
